@@ -19,6 +19,7 @@ mod c13l2;
 mod c11l2;
 mod c05l2;
 mod c03l2;
+mod c03get;
 mod c04h;
 mod c04sys;
 mod c15l2;
@@ -108,6 +109,7 @@ fn main() {
         "c11l2" => c11l2::run(&a),
         "c05l2" => c05l2::run(&a),
         "c03l2" => c03l2::run(&a),
+        "c03get" => c03get::run(&a),
         "c04h" => c04h::run(&a),
         "c04sys" => c04sys::run(&a),
         "c15l2" => c15l2::run(&a),
